@@ -153,6 +153,13 @@ def data_session(col, binpath, vmon, rng, tag, scratch):
         # view controls change only the view
         sess.key("F1")
         seq = []
+        if int(tag.split("#")[1]) % 2 == 1:
+            # every other session starts with a mouse drag on the still unpanned view
+            c0, r0 = rng.randrange(40, 160), rng.randrange(10, 50)
+            for kind, dc, dr in (("down", 0, 0), ("drag", 3, 1), ("drag", 7, 3), ("drag", 9, 6), ("up", 9, 6)):
+                sess.p.write(procs.mouse(kind, c0 + dc, r0 + dr))
+                seq.append(f"{kind}@{c0 + dc},{r0 + dr}")
+                sess.p.pump(0.03)
         for _ in range(rng.randint(1, 40)):
             r = rng.random()
             if r < 0.5:
@@ -287,7 +294,9 @@ def map_session(col, binpath, rng, tag, scratch):
             lines.append(enc.line(enc.long_frame(17, 5, addr, enc.me_airpos(11, 30000, la, lo, False))))
             lines.append(enc.line(enc.long_frame(17, 5, addr, enc.me_airpos(11, 30000, la, lo, True))))
     plan = [("send", b"".join(lines)), ("mark", "feed_done"), ("sleep", 60)]
-    opts = ["--disable-heading", "--disable-track", "--disable-icao", "--filter-time", "100000"]
+    # these aircraft never sent a velocity report, so with the heading display on (the default)
+    # their dot is still the only blue thing: every other session keeps the default
+    opts = ["--disable-track", "--disable-icao", "--filter-time", "100000"] + (["--disable-heading"] if int(tag.split("#")[1]) % 2 == 0 else [])
     sess = session.RadarSession(binpath, plan, lat=lat, lon=lon, opts=opts, rows=60, cols=200, scratch=scratch)
     inp = {"receiver": [lat, lon], "d_km": d, "options": opts, "lines": [l.decode() for l in lines], "tag": tag}
     try:
